@@ -35,7 +35,7 @@ TIME_UNITS = ['ns', 'us', 'ms', 's', 'min']
 LEN_UNITS = ['mm', 'cm', 'm', 'km', 'angstrom', 'nm']
 WAV_UNITS = ['angstrom', 'nm', 'm', 'pm', 'mm']
 EN_UNITS = ['ueV', 'meV', 'eV', 'J', 'keV']
-ANG_UNITS = ['rad', 'deg']
+ANG_UNITS = ['rad', 'deg', 'rad', 'deg', 'mrad', 'arcmin', 'urad', 'arcsec']  # any angular unit is a valid input
 Q_UNITS = ['1/angstrom', '1/nm', '1/m']
 
 C = None
@@ -255,7 +255,7 @@ def gen_case(rng, ctx, kernel=None, force=None):
     for n in names:
         is_data = n == data_name
         if n == 'two_theta':
-            unit = ANG_UNITS[rng.integers(0, 2)]
+            unit = ANG_UNITS[rng.integers(0, len(ANG_UNITS))]
         elif n == 'tof':
             unit = TIME_UNITS[rng.integers(0, len(TIME_UNITS))]
         elif n == 'Ltotal':
@@ -293,15 +293,20 @@ def gen_case(rng, ctx, kernel=None, force=None):
         # magnitudes
         if n == 'two_theta' and dt == 'int64':
             # whole degrees 1..180 or whole radians 1..3: exact integers in the unit given
-            v = (rng.integers(1, 181, size=n_el) if unit == 'deg' else rng.integers(1, 4, size=n_el)).astype(float)
+            # whole numbers of the unit given (1..180 deg, 1..3 rad, 1..3141 mrad, ...): exact integers
+            top = int(np.floor(float(si.PI / si.factor(sc.Unit(unit)))))
+            v = rng.integers(1, top + 1, size=n_el).astype(float)
         elif n == 'two_theta':
             v = _angles(rng, n_el, ctx)
             if dt == 'float32':
                 # keep float32 angles away from the forced double-precision classes
                 v = np.clip(v, 1e-3, np.pi - 1e-3)
-            v = v if unit == 'rad' else np.degrees(v)
             if unit == 'deg':
-                v = np.minimum(v, 180.0)
+                v = np.minimum(np.degrees(v), 180.0)
+            elif unit != 'rad':
+                v = np.minimum((v.astype(si.LD) / si.factor(sc.Unit(unit))).astype(np.float64),
+                               float(si.PI / si.factor(sc.Unit(unit))))
+            ctx.hit('angle unit ' + unit)
         else:
             if cls == 'float32' or dt == 'float32':
                 # float32 domain: moderate magnitudes and units (DESIGN 3: domains)
@@ -494,9 +499,9 @@ def routes_case(rng, ctx, scn):
 
 # ------------------------------------------------------------------ driver ---
 def plan(tier, seed):
-    n_shards = 8 if tier == 'quick' else 16
-    calls = 60 if tier == 'quick' else 8000
-    routes = 12 if tier == 'quick' else 1000
+    n_shards = 16
+    calls = 300 if tier == 'quick' else 8000
+    routes = 40 if tier == 'quick' else 1000
     return [{'calls': calls, 'routes': routes} for _ in range(n_shards)]
 
 
@@ -506,7 +511,8 @@ def requirements(tier):
     return {'events': ev,
             'forced': ['two_theta<1e-9', 'two_theta within 1e-12 of pi', 'two_theta == pi',
                        'integer geometry operand', 'binned operand is a slice of a larger one',
-                       'nearly uniform per-pixel geometry', 'dead pixel (NaN geometry)']}
+                       'nearly uniform per-pixel geometry', 'dead pixel (NaN geometry)']
+            + ['angle unit ' + u for u in sorted(set(ANG_UNITS))]}
 
 
 def run(shard, ctx):
